@@ -2250,6 +2250,8 @@ class Array:
         """
         if ord == 0:
             return np.sum([np.count_nonzero(t) for t in self._data], dtype=np.int_)
+        if isinstance(ord, str) and ord == 'fro':
+            ord = None  # Frobenius norm of the flat data == 2-norm; numpy rejects 'fro' for 1D arrays
         if convert_to_float:
             new_type = np.result_type('f4', self.dtype)  # int -> float
             if new_type != self.dtype:
@@ -3907,6 +3909,8 @@ def norm(a, ord=None, convert_to_float=True):
         if convert_to_float:
             new_type = np.result_type('f4', a.dtype)  # int -> float
             a = np.asarray(a, new_type)  # doesn't copy, if the dtype did not change.
+        if isinstance(ord, str) and ord == 'fro':
+            ord = None  # numpy rejects 'fro' for the flattened (1D) data
         return np.linalg.norm(a.reshape((-1,)), ord)
     elif isinstance(a, list):
         return np.linalg.norm([norm(p) for p in a] + [0])
